@@ -124,7 +124,10 @@ func ffTamperings(rng *rand.Rand, valid *ffTriple, others []*ffTriple, stranger 
 		t.Block.Body.PeersHash[0] ^= 1
 		return true
 	})
-	mk("block transaction appended", func(t *ffTriple) bool { t.Block.Body.Transactions = append(t.Block.Body.Transactions, []byte("evil")); return true })
+	mk("block transaction appended", func(t *ffTriple) bool {
+		t.Block.Body.Transactions = append(t.Block.Body.Transactions, []byte("evil"))
+		return true
+	})
 	mk("block transaction dropped", func(t *ffTriple) bool {
 		if len(t.Block.Body.Transactions) == 0 {
 			return false
